@@ -34,6 +34,7 @@ import (
 //   values    decode(encode(v)) ≍ v for generated values of every command payload, selector and elements type
 //             (and Datagram, HeaderType, CmdType, FilterType), nil ≍ empty list, relative end times re-expressed.
 //   periods   the TimePeriodType exception on its own: StartTime nil + relative (or absolute) EndTime.
+//   periodgrid  the same exception over the calendar shape of the distance to the end (c18_periodgrid.go).
 //   api       the API above FunctionDataCmd and the stack's own codec path: in a World, FeatureLocal.RequestRemoteData
 //             (selector, elements), SetData and UpdateData (full, partial+selector, delete, delete+partial) for a sample
 //             of functions per feature type; the datagram the stack's Sender wrote to the connection is decoded and the
@@ -104,6 +105,7 @@ func init() {
 			"twelve command shapes per payload where the filter table has the selector/elements type; non-trivial if every shape that exists for the function was built, round-tripped and judged and at least one payload was not empty; distinct = (feature type, function, has selector type, has elements type). " +
 			"values: one case per (type, block) over every CmdType payload type, every selector and elements type of FilterType and the four frame types, 200 / 5000 generated values per type at 6 depths x 4 densities x 3 list lengths; non-trivial if at least 100 values were compared and a third of them were not empty; distinct = (kind, type, block). " +
 			"tagtable / fixtures / periods: fixed passes, non-trivial if they examined more than 200 fields / 10 fixtures / 400 periods. " +
+			"periodgrid (c18_periodgrid.go): 8 / 56 cases; the distance between the clock and the end of a period without start time enumerated by its calendar shape (every whole day below 3000, every whole hour to 3400, whole minutes, weeks, 30- and 365-day multiples, two-unit compounds; each also -1 s and +1 s, in the future and in the past, as a relative and as an absolute end time; the local zone alternates between the cases, the thorough tier runs every list in both) and every value taken through two hops (decoded, encoded and decoded again); non-trivial if at least 2000 round trips were judged and at least 200 wire texts were, by an independent reading, exactly on the grid; distinct = (list, zone, block). " +
 			"api: one case per feature type (NodeManagement excepted), 3 / 12 functions drawn per case (list functions with a key-covering selector first), every read form and every update form the function has; non-trivial if at least 6 datagrams were decoded from the connection and judged; distinct = (feature type, functions drawn). " +
 			"Histories (c18_history.go). shapes: all commands of a payload are kept alive and encoded a second time together in one datagram after the last one was built (late/...), and between the payloads the API is called with arguments the function has no place for (foreign selector / elements of 8 kinds, judged for function and payload only), so that payloads 2.. of every function are judged behind that history. " +
 			"api: the same foreign argument through RequestRemoteData followed by the decided read forms again; filtered read and write commands of all drawn functions built first and then sent as ONE request through the stack's Sender; every notification the Sender remembers (DatagramForMsgCounter) encoded again at the end of the case. " +
@@ -131,6 +133,7 @@ func init() {
 				return len(types)
 			}, Run: c18Values, Procs: 1},
 			{Name: "periods", Cases: func(t rig.Tier) int { return map[rig.Tier]int{rig.Quick: 4, rig.Thorough: 40}[t] }, Run: c18Periods, Procs: 1},
+			{Name: "periodgrid", Cases: c18PeriodGridCases, Run: c18PeriodGrid, Procs: 1},
 			{Name: "api", Cases: func(t rig.Tier) int {
 				if t == rig.Thorough {
 					return len(c18APITypes()) * 4
@@ -274,6 +277,11 @@ func (g *c18Gen) period() model.TimePeriodType {
 		case 1:
 			d = -d
 		}
+		// the calendar shape of the distance (see c18_periodgrid.go): a third of the spans is a whole number of
+		// minutes, hours, days or weeks, where the duration text leaves fields out
+		if g.r.Intn(3) == 0 {
+			d = d.Truncate([]time.Duration{time.Minute, time.Hour, c18Day, c18Week}[g.r.Intn(4)])
+		}
 		return d
 	}
 	switch g.r.Intn(8) {
@@ -285,8 +293,10 @@ func (g *c18Gen) period() model.TimePeriodType {
 		return model.TimePeriodType{StartTime: abs(), EndTime: abs()}
 	case 3:
 		return model.TimePeriodType{StartTime: model.NewAbsoluteOrRelativeTimeType("PT0S"), EndTime: model.NewAbsoluteOrRelativeTimeTypeFromDuration(span())}
-	case 4, 5:
+	case 4:
 		return model.TimePeriodType{EndTime: model.NewAbsoluteOrRelativeTimeTypeFromDuration(span())}
+	case 5: // the text written by the harness, not by the function that also writes the wire text
+		return model.TimePeriodType{EndTime: model.NewAbsoluteOrRelativeTimeType(c18DurText(span()))}
 	case 6:
 		return model.TimePeriodType{EndTime: model.NewAbsoluteOrRelativeTimeTypeFromTime(g.now.Add(span()))}
 	default:
